@@ -415,7 +415,10 @@ class World:
 
     def sub(self, i, prefixes, extra=()):
         op = {"k": "sub", "i": i, "P": [self.I(x) for x in prefixes]}
-        return self._derive(op, lambda: self.convs[i - 1].get_subconverter(list(prefixes)), [i], extra)
+        # the signature takes any iterable: every other call passes a one-shot iterator, the rest a list / a set
+        n = len(self.events)
+        arg = (lambda: iter(list(prefixes))) if n % 3 == 1 else (lambda: set(prefixes)) if n % 3 == 2 else (lambda: list(prefixes))
+        return self._derive(op, lambda: self.convs[i - 1].get_subconverter(arg()), [i], extra)
 
     def remap(self, kind, i, pairs, extra=()):
         from curies import remap_curie_prefixes, remap_uri_prefixes, rewire
@@ -533,6 +536,10 @@ class World:
             raise KeyError(loader)
         def go():
             if via == "obj":
+                if loader == "epm" and len(self.events) % 2:
+                    # Iterable[...]: a one-shot iterator of dictionaries / of Record objects is as good as a list
+                    it = iter(obj) if len(self.events) % 4 == 1 else (Record(**dd) for dd in obj)
+                    return f(it, delimiter=delim, strict=strict)
                 return f(obj, delimiter=delim, strict=strict)
             import json as _json, pathlib
             # the SAME path is rewritten for every load of this process: load, rewrite, load again
